@@ -366,7 +366,7 @@ def _generate_ctls_without_code_map(snapshot, start, end, config, rst_handler):
             count = 1
         prev_max_count, prev_op_id, prev_op, prev_op_bytes = max_count, op_id, operation, op_bytes
 
-    if not ctls or ctls[-1][0] != ctl_addr:
+    if ctl_addr < end and (not ctls or ctls[-1][0] != ctl_addr):
         ctls.append((ctl_addr, 'b'))
     ctls.append((end, 'i'))
 
